@@ -153,13 +153,17 @@ def run(ctx):
         raise HarnessError(str(e))
     ctx.extra["approx_model_points_validated_against_pytest"] = nval
     tolforms = [(False, False), (True, False), (False, True), (True, True)]
-    for cplx, (has_rel, has_abs), mode in itertools.product([False, True], tolforms, ["qty", "bare", "dimkw"]):
+    for cplx, (has_rel, has_abs), mode in itertools.product([False, True], tolforms, ["qty", "bare", "dimkw", "qty-same"]):
         if mode != "qty" and cplx and ctx.tier == "quick":
             continue
         ses = Session(ctx)
         name = f"{mode}:{'complex' if cplx else 'real'}:rel={'given' if has_rel else 'default'}:abs={'given' if has_abs else 'none'}"
         with ses.active(), rebound(*bindings()):
             lr, li, rr, ri = (ses.scalar(n) for n in ("lr", "li", "rr", "ri"))
+            if mode == "qty-same":
+                # the diagonal: both operands carry the SAME scalar.  Distinct symbolic scalars never compare equal with Python's ==
+                # (SymPy equality is structural), so code that short-cuts on `lhs.scale_factor == rhs.scale_factor` is reachable only here.
+                rr, ri = lr, li
             rho, alpha = ses.scalar("rho"), ses.scalar("alpha")
             A, B, K = ses.dim("A"), ses.dim("B"), ses.dim("K")
             zl = [ses.z(lr), ses.z(li) if cplx else z3.RealVal(0)]
@@ -175,7 +179,7 @@ def run(ctx):
                 kw["relative_tolerance"] = lift.SymFloat(ses.z(rho), rho)
             if has_abs:
                 kw["absolute_tolerance"] = lift.SymFloat(ses.z(alpha), alpha)
-            if mode == "qty":
+            if mode in ("qty", "qty-same"):
                 call = lambda: AP.assert_equal(lq, rq, **kw)
                 call_sw = lambda: AP.assert_equal(rq, lq, **kw)
                 Bv = B.vec
